@@ -181,6 +181,45 @@ fn sample_solver_mate(rng: &mut gen::R, forbidden: &HashSet<PKey>) -> Option<(Po
     Some((q, n))
 }
 
+/// A side that is itself in check and mates by capturing the checker or interposing, preferably with an enemy pawn
+/// diagonally behind its king (one that has passed the king and does not attack it): check-evasion shortcuts that
+/// count checkers or restrict the answers to king moves are wrong exactly here.
+fn sample_mate_while_in_check(rng: &mut gen::R, forbidden: &HashSet<PKey>) -> Option<(Pos, usize)> {
+    let (q, n) = sample_solver_mate(rng, forbidden)?;
+    if !q.in_check(q.wtm) {
+        return None;
+    }
+    if rng.gen_bool(0.7) {
+        let k = (0..64usize).find(|&s| q.b[s] == if q.wtm { 6 } else { -6 })?;
+        let (kr, kf) = (k / 8, k % 8);
+        let pr = if q.wtm { kr.checked_sub(1)? } else { kr + 1 };
+        if pr >= 1 && pr <= 6 {
+            let mut files = vec![];
+            if kf > 0 {
+                files.push(kf - 1);
+            }
+            if kf < 7 {
+                files.push(kf + 1);
+            }
+            let f = *files.choose(rng)?;
+            if q.b[pr * 8 + f] == 0 {
+                let mut r = q.clone();
+                r.b[pr * 8 + f] = if q.wtm { -1 } else { 1 };
+                if r.is_legal_position() && r.in_check(r.wtm) {
+                    let mut sv = Solver::new(forbidden);
+                    sv.node_limit = 300_000;
+                    if let Some(m) = sv.mate_distance(&r, if r.men() > 8 { 3 } else { 5 }) {
+                        if !sv.aborted {
+                            return Some((r, m));
+                        }
+                    }
+                }
+            }
+        }
+    }
+    Some((q, n))
+}
+
 pub fn judge_solver(p: &Pos, n: usize, sc: &Scenario, res: &StepResult, rep: &mut Report) -> bool {
     let step = &sc.steps[0];
     let replay = json!({"scenario": sc.to_json(), "solver_mate_in": n});
@@ -517,6 +556,24 @@ pub fn run(ctx: &Ctx, rep: &mut Report) {
         if rep.samples.len() < 4 {
             rep.sample(json!({"fen": p.fen(), "solver_mate_in_plies": d}));
         }
+    }
+    // mates delivered by a side that is in check itself
+    let mut n = ctx.n(900, 60_000);
+    let mut tries = 0u64;
+    while n > 0 && ctx.time_left() && tries < 4_000_000 {
+        tries += 1;
+        let Some((p, d)) = sample_mate_while_in_check(&mut rng, &empty) else { continue };
+        if gen::q_cost(&p, 300_000) >= 300_000 {
+            continue;
+        }
+        for dd in [d, d + 1, d + 2] {
+            let w = *workers.choose(&mut rng).unwrap();
+            let sc = fresh(&mut rng, &p.fen(), dd, w);
+            let Some(res) = run_one(&sc, &ev) else { continue };
+            judge_solver(&p, d, &sc, &res, rep);
+            n = n.saturating_sub(1);
+        }
+        rep.count("solver_mates_delivered_while_in_check", 1);
     }
     // the mate problems of the corpus
     for (i, p) in gen::corpus().iter().enumerate() {
